@@ -75,6 +75,12 @@ func (t DataType) Bytes(endian binary.ByteOrder, value interface{}, length int64
 		t -= asetime.DurationFromDateTime(asetime.Epoch1900())
 
 		days := t.Days()
+		// Days truncates towards zero, but the time part must always
+		// count forward from midnight - floor the days for values
+		// before 1900-01-01.
+		if t.Microseconds()-days*int(asetime.Day) < 0 {
+			days--
+		}
 
 		bs := make([]byte, length)
 		switch length {
